@@ -1,10 +1,10 @@
 #!/bin/sh
 # Build the whole Coq development once, offline, from files on disk: regenerate the model from /repo, then make.
 set -e
-cd /verif
+cd "$(dirname "$(readlink -f "$0")")"
 /venv/bin/python - <<'PY'
 import sys
-sys.path.insert(0, '/verif/tools')
+import os; sys.path.insert(0, os.path.join(os.getcwd(), 'tools'))
 import vlib
 with vlib.Lock():
     meta = vlib.regenerate()
